@@ -73,6 +73,7 @@ class State:
         self.heap: dict[str, z3.ExprRef] = {}
         self.alloc = z3.Const(ty.fresh_name("alloc"), z3.ArraySort(ty.RefSort, z3.BoolSort()))
         self.pc: list = []
+        self.decisions: list = []           # branch conditions only (subset of pc): used to merge forked pure evaluations with ite
         self.warn_count = 0                 # ghost: number of warnings.warn calls (python int or z3 Int)
         self.ghost: dict = {}
         self.trace: list = []               # human-readable branch decisions
@@ -86,6 +87,7 @@ class State:
         s.heap = dict(self.heap)
         s.alloc = self.alloc
         s.pc = list(self.pc)
+        s.decisions = list(self.decisions)
         s.warn_count = self.warn_count
         s.ghost = {k: _copy_val(v, memo) for k, v in self.ghost.items()}
         s.trace = list(self.trace)
